@@ -16,7 +16,7 @@ CLAIM = {
           "The stream encoder is also modelled at message level (Model/Stream.v: WriteMessage = protocol validation, message validation with the declarations kept from "
           "earlier calls, encoding with the LRU / timestamp reference / data size / CRC kept from earlier calls; SequenceCompleted = Encoder.reset as translated field by "
           "field from the source on every run): C09_stream_message_level -- for EVERY chain of message lists it accepts the chain iff the batch encoder accepts every file and "
-          "then writes the same bytes; nothing leaks from one sequence into the next and interleaving validation with encoding changes nothing (the obligation "
+          "then writes the same bytes (end to end through any rewritable destination and write buffer: C09_stream_end_to_end); nothing leaks from one sequence into the next and interleaving validation with encoding changes nothing (the obligation "
           "reset_complete_now breaks when reset stops clearing one of the six fields, or SequenceCompleted stops calling it). Per run: the model and the Go "
           "encoder agree on error flags and destination bytes for sampled configurations, and the Go encoder's output is identical over all 4 kinds x 6 buffer sizes x "
           "batch/stream x preset/zero data size for every generated input; a fresh encoder on a destination that already holds bytes appends exactly the same bytes for "
